@@ -113,7 +113,7 @@ func corpusFile(name string) []byte {
 
 // cliInput describes the bytes of one input file so that a protocol line can rebuild them.
 type cliInput struct {
-	kind string // file trunc lenmis cat hex none sub suball upcase
+	kind string // file trunc lenmis cat hex none sub suball upcase rand
 	name string
 	n    int
 	sub  []cliInput
@@ -198,6 +198,9 @@ func (in cliInput) bytes() []byte {
 		return bytes.ReplaceAll(in.sub[0].bytes(), in.raw, in.raw2)
 	case "upcase":
 		return upcaseResidues(in.sub[0].bytes())
+	case "rand":
+		seed, _ := strconv.Atoi(string(in.raw))
+		return c14RandFasta(in.n, seed)
 	}
 	return nil
 }
@@ -218,6 +221,8 @@ func (in cliInput) enc() string {
 		return "(" + in.kind + " " + in.sub[0].enc() + " " + encBytes(in.raw) + " " + encBytes(in.raw2) + ")"
 	case "upcase":
 		return "(upcase " + in.sub[0].enc() + ")"
+	case "rand":
+		return fmt.Sprintf("(rand %d %s)", in.n, in.raw)
 	}
 	return "(none)"
 }
@@ -244,6 +249,8 @@ func decInput(s sexp) cliInput {
 		return inSubAll(decInput(a[0]), string(decBytes(a[1])), string(decBytes(a[2])))
 	case "upcase":
 		return inUpcase(decInput(a[0]))
+	case "rand":
+		return inRand(decInt(a[0]), decInt(a[1]))
 	case "none":
 		return inNone()
 	}
@@ -1029,6 +1036,7 @@ func propC14(r *Run) {
 	var hists []cliHist
 	c14KeyEncoding(r)
 	c14Environments(r)
+	c14WriterFaults(r)
 
 	// --- systematic sweeps, every command
 	for ci := range c14Cmds {
